@@ -47,7 +47,12 @@ def replay(mods, scn, unit=UNIT, offset=0.0):
     n = 0
     for i, tk in enumerate(scn["ticks"]):
         n += 1
-        readings = [runtime.StampedReading(r["t"] * unit + offset, r["key"], id=r["id"]) for r in tk["rs"]]
+        objs = {}       # a reading listed twice (same id in the specification) is the very same object listed twice
+        readings = []
+        for r in tk["rs"]:
+            if r["id"] not in objs:
+                objs[r["id"]] = runtime.StampedReading(r["t"] * unit + offset, r["key"], id=r["id"])
+            readings.append(objs[r["id"]])
         control = (i + 1) if tk["ctl"] else None
         held_before = (mf.current_time, mf.state)
         try:
